@@ -390,7 +390,7 @@ def absop_class(with_rmm=True, with_mm=True, with_gpn=True):
 
 
 
-def concrete_replay(prop, oracles, timeout=900):
+def concrete_replay(prop, oracles, timeout=900, tail=3000):
     """run the concrete oracles of /verif/replay/<prop>.py against the real code (real torch, $PYDV_REPO);
     confirmed = the oracle observed the violation on a concrete input"""
     import os
@@ -404,7 +404,7 @@ def concrete_replay(prop, oracles, timeout=900):
     try:
         p = subprocess.run([py, script] + list(oracles), capture_output=True, text=True, timeout=timeout, env=env,
                            cwd=os.path.join(verif, "replay"))
-        out = (p.stdout + p.stderr)[-3000:]
+        out = (p.stdout + p.stderr)[-tail:]
         rc = p.returncode
     except subprocess.TimeoutExpired:
         out, rc = "timeout", 2
